@@ -45,9 +45,9 @@ CLAIMED = {
              "frames_prefix). Tie: the real xcm_tp_tcp.c and xcm_tp_tls.c, #included unmodified over a scripted lower "
              "layer (ASan+UBSan), produce line by line the model's rc/errno/payload/8 counters/buffer state/bytes handed "
              "down on generated histories; an independent delivery monitor checks the implementation's output alone. "
-             "ux/uxf/utls legs: see level_note.",
+             "ux/uxf: C01_ux_exact_delivery over the kernel's record queue (K-seqpacket), tied by unit_ux on the real xcm_tp_ux.c. utls: see level_note.",
         note="Proof covers tcp and tls framing relative to the byte-stream contract of the layer below (FIFO, sticky "
-             "failure = C02/C06 of btcp/btls). Not yet inside the Lean model: the UX seqpacket transport, UTLS "
+             "failure = C02/C06 of btcp/btls). ux/uxf relative to K-seqpacket. Not yet inside the Lean model: UTLS "
              "delegation and the blocking wrappers of xcm.c (they are sequences of the modelled non-blocking steps). "
              "Correspondence is sampled differential testing. Axioms: propext, Classical.choice, Quot.sound.",
         technique="Lean 4 invariant proof over unbounded histories + differential correspondence on the real framing code",
@@ -75,7 +75,7 @@ CLAIMED = {
              "C01_exact_delivery). Tie: unit_framing correspondence with send-focused generation (sizes 0,1,max,max+1,"
              "far larger; refusal before acceptance, between acceptance and flush, after k bytes) and a wire monitor.",
         note="The blocking wrapper in xcm.c (poll() interrupted by a signal between acceptance and flush, defect "
-             "candidate F-03a) and the ux transport are not yet inside the model or this check; 'exactly once' is the "
+             "candidate F-03a) is not yet inside the model or this check; ux/uxf: C03_ux_failed_send_no_trace + unit_ux; 'exactly once' is the "
              "safety half (at most once, in order) — eventual delivery is C04. Lower-layer failure is assumed terminal.",
         technique="Lean 4 proofs (state equalities, corollary of the delivery theorem) + differential correspondence",
         ref="DESIGN.md §5 C03"),
@@ -87,7 +87,7 @@ CLAIMED = {
              "from_lower>=to_app (C17_order); refused sends count nothing (C17_refused_counts_nothing); flushed sender "
              "and fully-read receiver agree (C17_idle_agreement). Tie: the counters (via the transport's get_cnt op) are "
              "part of every compared output line of unit_framing on tcp and tls.",
-        note="Counters of ux/uxf, btcp/btls (byte counters) and utls delegation are not yet in the model. Sampled "
+        note="ux/uxf counters: C17_ux_* theorems + unit_ux (this is where F-17a was found and fixed). btcp byte counters are part of C02's compared lines; btls and utls delegation are not yet in the model. Sampled "
              "correspondence. Axioms: propext, Classical.choice, Quot.sound.",
         technique="Lean 4 invariant proofs over unbounded histories + differential correspondence",
         ref="DESIGN.md §5 C17"),
